@@ -449,6 +449,12 @@ func retVal(rt *ssa.Return, i int) ssa.Value {
 	if !ok {
 		return v
 	}
+	// a record modified field by field after it was stored is not the value that was stored
+	for _, ref := range *al.Referrers() {
+		if _, isFA := ref.(*ssa.FieldAddr); isFA {
+			return v
+		}
+	}
 	b := rt.Block()
 	var last ssa.Value
 	for _, in := range b.Instrs {
